@@ -149,25 +149,34 @@ def tag_sig(tags):
     return ','.join(sorted(out)) or 'plain'
 
 
+SKELETONS = [('comb-desc', 'a b'), ('comb-child', 'a > b'), ('comb-next', 'a + b'), ('comb-sibling', 'a ~ b'), ('list', 'a, b'),
+             ('universal', '*'), ('pe', 'a::before')]
+
+
 def narrow(ctx, failing):
     """failing: [(case, result, clause)] -> signature per entry.  Looks for the smallest input that shows the same kind of
     failure of the same clause: first every single identifier / string of S placed in a minimal selector of its own
-    (alone, then after `a ` = behind a descendant combinator), then every top-level simple selector of S."""
+    (alone, then after `a ` = behind a descendant combinator), then the bare structure (`a > b`, `a, b`, ...), then every
+    top-level simple selector of S."""
     cands = []          # (entry index, text, label)
     for idx, (c, d, clause) in enumerate(failing):
         seen = set()
         for kind, raw in sg.lex_idents(c['S']):
             atom = sg.atom_for(kind, raw)
-            if atom is None or sg.lex_class(raw) == 'plain' or atom in seen:
+            if atom is None or (sg.lex_class(raw) == 'plain' and kind != 'attr-string') or atom in seen:
                 continue
             seen.add(atom)
             lab = '%s:%s' % (kind, sg.lex_class(raw))
             cands.append((idx, atom, lab, 0))
             cands.append((idx, 'a ' + atom, lab + '/after-descendant-combinator', 1))
+        tags = set(t for t in c.get('tags', []) if '/' not in t)
+        for tag, text in SKELETONS:
+            if tag in tags:
+                cands.append((idx, text, 'structure:' + tag, 2))
         for pt, ptags in c.get('parts', []):
             if pt not in seen:
                 seen.add(pt)
-                cands.append((idx, pt, 'simple:' + tag_sig(ptags), 2))
+                cands.append((idx, pt, 'simple:' + tag_sig(ptags), 3))
     res = judge_texts(ctx, [t for _, t, _, _ in cands]) if cands else []
     sigs = []
     for idx, (c, d, clause) in enumerate(failing):
@@ -178,7 +187,7 @@ def narrow(ctx, failing):
             rank, lab, t, r = hits[0]
             sigs.append(('%s|%s' % (kind, lab), {'minimal': t, 'minimal_result': {k: v for k, v in r.items() if k in ('P', 'P2', 'E')}}))
         else:
-            sigs.append(('%s|whole:%s' % (kind, tag_sig(c.get('tags', []))), {}))
+            sigs.append(('%s|whole:%s' % (kind, tag_sig([t for t in c.get('tags', []) if '@' not in t])), {}))
     return sigs
 
 
